@@ -491,7 +491,16 @@ fn op_tag(cur: Option<&ActiveOrder>, op: &OpJ) -> String {
             StJ::Open { m } => format!(
                 "snapOpen.{}.{}",
                 cmp_class(cur, m.t),
-                if (dec(&o.qty) - dec(&m.f)).is_zero() { "full" } else { "left" }
+                {
+                    let rem = dec(&o.qty) - dec(&m.f);
+                    if rem.is_zero() {
+                        "full"
+                    } else if rem.is_sign_negative() {
+                        "over"
+                    } else {
+                        "left"
+                    }
+                }
             ),
             StJ::CIF { m: None } => "snapCIFn".to_string(),
             StJ::CIF { m: Some(m) } => format!("snapCIFs.{}", cmp_class(cur, m.t)),
@@ -761,6 +770,8 @@ fn table_ops(k: &KeyJ) -> Vec<OpJ> {
             ("20", "10"),
             ("20", "20"),
             ("10", "10.00"),
+            ("10", "10.5"), // over-filled, slightly: remaining is negative, the order stays open
+            ("10", "1000"), // over-filled, far
         ] {
             v.push(OpJ::Snap {
                 o: ord(k.clone(), "102", q, StJ::Open { m: meta(8, t, f) }),
@@ -949,7 +960,8 @@ fn pick_filled(qty: &str, mode: u64) -> String {
             d.rescale(q.scale() + 3);
             d.to_string()
         }
-        _ => (q + Decimal::ONE).to_string(), // over-filled: remaining is negative, not zero
+        4 => (q + Decimal::new(5, 1)).to_string(), // over-filled slightly: remaining is negative, not zero
+        _ => (q * Decimal::from(100)).to_string(),  // over-filled far
     }
 }
 
@@ -1031,7 +1043,7 @@ fn gen_any(r: &mut Rng, k: &KeyJ, cur: Option<&ActiveOrder>, now: &mut i64) -> O
         4 => gen_marker(r, k, cur, now),
         _ => {
             let w = *r.pick(&[When::Newer, When::Tie, When::Older, When::Any]);
-            let fm = r.below(5);
+            let fm = r.below(6);
             let vary = r.chance(1, 4);
             gen_open_snap(r, k, cur, now, w, fm, vary)
         }
@@ -1060,7 +1072,7 @@ fn gen_op(
     } else if r.chance(1, 10) {
         return gen_any(r, k, cur, now);
     }
-    let fill = |r: &mut Rng| -> u64 { *r.pick(&[0, 1, 1, 1, 2, 3]) };
+    let fill = |r: &mut Rng| -> u64 { *r.pick(&[0, 1, 1, 1, 2, 3, 4, 5]) };
     let when = |r: &mut Rng| -> When {
         if adversarial {
             *r.pick(&[When::Newer, When::Tie, When::Older, When::Older])
@@ -1185,7 +1197,7 @@ fn gen_engine_history(r: &mut Rng, max_len: u64, adversarial: bool) -> InputJ {
                         gen_marker(r, &k, cur, &mut now)
                     } else {
                         let w = *r.pick(&[When::Newer, When::Newer, When::Tie, When::Older]);
-                        let fm = *r.pick(&[0, 1, 1, 2, 3]);
+                        let fm = *r.pick(&[0, 1, 1, 2, 3, 4, 5]);
                         let vary = r.chance(1, 5);
                         gen_open_snap(r, &k, cur, &mut now, w, fm, vary)
                     };
